@@ -118,6 +118,15 @@ def gen_workspace(rng, *, max_channels=3, max_samples=3, max_bins=4, mods=None,
         params = [copy.deepcopy(v) for v in nf_cfg.values()]
         if lumi_cfg:
             lc = copy.deepcopy(lumi_cfg)
+            if mi > 0 and rng.random() < 0.5:
+                # the luminosity (value and uncertainty) is a per-measurement setting
+                lv = r3(rng, 0.8, 2.5)
+                sg = round(lv * rng.uniform(0.01, 0.05), 4)
+                lc.update(auxdata=[lv], sigmas=[sg], bounds=[[round(lv - 5 * sg, 6), round(lv + 5 * sg, 6)]], inits=[lv])
+            if rng.random() < 0.3:
+                # a fit started away from the nominal luminosity: the initial value is not the constraint centre
+                lv, sg = lc["auxdata"][0], lc["sigmas"][0]
+                lc["inits"] = [round(lv + rng.choice([-2.0, -1.0, 1.0, 2.5]) * sg, 6)]
             if rng.random() < 0.4:
                 lc["fixed"] = True
             params.append(lc)
